@@ -107,6 +107,25 @@ def connect_holes_and_structures(
     return matrix
 
 
+def _dilate_to_fixpoint(body_fn, seed: jax.Array) -> jax.Array:
+    """Repeats one masked dilation round until the front stops growing.
+
+    A face-connected path through an (x, y, z) grid can be far longer than the largest grid
+    dimension (e.g. a serpentine), so a fixed number of rounds cannot bound the flood fill.
+    """
+
+    def _cond(state):
+        prev, cur = state
+        return jnp.any(prev != cur)
+
+    def _body(state):
+        _, cur = state
+        return cur, body_fn(0, cur)
+
+    _, result = jax.lax.while_loop(_cond, _body, (jnp.zeros_like(seed), seed))
+    return result
+
+
 def compute_air_connection(matrix: jax.Array) -> jax.Array:
     """Computes a mask of air regions connected to the boundaries.
 
@@ -121,7 +140,6 @@ def compute_air_connection(matrix: jax.Array) -> jax.Array:
         jax.Array: Boolean array marking air regions connected to boundaries.
     """
     inv_matrix = jnp.invert(matrix)
-    n = max([matrix.shape[0], matrix.shape[1], matrix.shape[2]])
     n4_kernel = jnp.asarray(
         [
             [0, 1, 0],
@@ -148,7 +166,7 @@ def compute_air_connection(matrix: jax.Array) -> jax.Array:
         )
         return arr
 
-    connected = jax.lax.fori_loop(0, n, _body_fn, connected)
+    connected = _dilate_to_fixpoint(_body_fn, connected)
 
     return connected
 
@@ -172,7 +190,6 @@ def compute_polymer_connection(
     Returns:
         jax.Array: Boolean array marking connected polymer regions.
     """
-    n = max([matrix.shape[0], matrix.shape[1], matrix.shape[2]])
     padded = False
     if matrix.shape[2] == 1:
         padded = True
@@ -201,7 +218,7 @@ def compute_polymer_connection(
         )
         return arr
 
-    connected = jax.lax.fori_loop(0, n, _body_fn, connected)
+    connected = _dilate_to_fixpoint(_body_fn, connected)
 
     if padded:
         connected = connected[..., 1:2]
